@@ -501,7 +501,7 @@ pub fn run(ctx: &Ctx) -> Report {
             }
             let variant = if i % 4 == 0 { 0 } else { rng.next() | 1 };
             let seqs = if rng.chance(1, 4) { (rng.below(250) as u8, rng.below(250) as u8) } else { (1, 2) };
-            let c = super::c18::TlsCase { tls13: rng.bool(), with_cert: false, server_mode: 0, user: user.clone(), cmds, scripts, first_cut: if rng.bool() { rng.range(1, 80) as usize } else { 0 }, cycle: if rng.bool() { vec![] } else { vec![rng.range(1, 300) as usize] }, write_limit: usize::MAX, close_notify: true, raw_limit: None, hs_variant: variant, app_override: None, seqs, auth_reject: if reject { Some(4243) } else { None }, record_per_command: rng.bool(), write_fault: None };
+            let c = super::c18::TlsCase { tls13: rng.bool(), with_cert: false, server_mode: 0, user: user.clone(), cmds, scripts, first_cut: if rng.bool() { rng.range(1, 80) as usize } else { 0 }, cycle: if rng.bool() { vec![] } else { vec![rng.range(1, 300) as usize] }, write_limit: usize::MAX, close_notify: true, raw_limit: None, hs_variant: variant, app_override: None, seqs, auth_reject: if reject { Some(4243) } else { None }, record_per_command: rng.bool(), write_fault: None, buffer_writes: rng.bool() };
             let o = match super::c18::run_tls(tm, &c) {
                 Ok(o) => o,
                 Err(e) => {
